@@ -10,12 +10,17 @@ Open Scope list_scope.
 (* (i) "without ... racing on shared memory": every syntactic use of Proxy.playerNames / playerIDs /
    servers / configServers and of players.list — including uses of a local that was assigned the map
    (an alias ranged over after RUnlock is an UNGUARDED use) — happens with the field's mutex held
-   (write mode for writes), except the alias uses inside the functions of the recorded findings
-   (Model.LockDiscipline.c12_known_sites, by function name).  Any other unguarded site fails this. *)
+   (write mode for writes).  The list of tolerated functions (Model.LockDiscipline.c12_known_sites)
+   is EMPTY now that findings C12-1..3 are repaired in /repo, so ANY unguarded site fails this. *)
 Theorem C12_guarded : forallb (fun a => guarded a || match known_site a with Some _ => true | None => false end)
                               accesses = true.
 Proof. exact guarded_forallb. Qed.
 Print Assumptions C12_guarded.
+
+(* with the empty list the obligation is plainly "every site is guarded" *)
+Theorem C12_every_site_guarded : forallb guarded accesses = true.
+Proof. exact every_site_guarded. Qed.
+Print Assumptions C12_every_site_guarded.
 
 (* the same obligation in the form whose failure prints the offending sites *)
 Theorem C12_no_unrecorded_unguarded_site : unguarded_unknown accesses = [].
@@ -40,18 +45,21 @@ Theorem C12_snapshot_atomic :
 Proof. intros ts sched r0 H. exact (snapshot_atomic_all_schedules ts sched r0 H). Qed.
 Print Assumptions C12_snapshot_atomic.
 
-(* listings that are fully guarded today (and stay so after the repairs) have the atomic granularity *)
+(* every listing function of the property is fully guarded in today's source, i.e. has the atomic
+   granularity to which C12_snapshot_atomic applies *)
 Theorem C12_guarded_listings_are_atomic :
   granularity "Proxy.Servers" = Atomic /\ granularity "Proxy.PlayerCount" = Atomic
-  /\ granularity "players.Len" = Atomic.
+  /\ granularity "players.Len" = Atomic /\ granularity "Proxy.Players" = Atomic
+  /\ granularity "Proxy.DisconnectAll" = Atomic /\ granularity "players.Range" = Atomic.
 Proof. exact servers_listing_atomic. Qed.
 Print Assumptions C12_guarded_listings_are_atomic.
 
-(* per-element granularity (reference copied under RLock, iterated after RUnlock: findings C12-1..3):
-   snapshot atomicity is FALSE — a lister and one leave, schedule lister, lister, leave, lister, lister *)
-Theorem C12_snapshot_atomic_refuted :
+(* PRE-FIX code (findings C12-1..3, repaired): per-element granularity (reference copied under RLock,
+   iterated after RUnlock): snapshot atomicity was FALSE — a lister and one leave, schedule lister,
+   lister, leave, lister, lister *)
+Theorem C12_prefix_snapshot_atomic_refuted :
   exists (ts : list (list lact)) (sched : list nat) (r0 : list N) (t : N) (l : list N),
     let evs := events (run (lcompile ts) sched (mkLS r0 [])) in
     In (EvList t l) evs /\ existsb (list_eqbN l) (contents r0 evs) = false.
 Proof. exists ts_torn, sched_torn, [1; 2], 0, [1]. exact torn_witness. Qed.
-Print Assumptions C12_snapshot_atomic_refuted.
+Print Assumptions C12_prefix_snapshot_atomic_refuted.
